@@ -21,7 +21,7 @@ def sh(cmd, **kw):
 def main():
     args = [a for a in sys.argv[1:] if not a.startswith("--")]
     opts = dict(a[2:].split("=", 1) for a in sys.argv[1:] if a.startswith("--") and "=" in a)
-    ids = args or sorted(os.listdir(os.path.join(HERE, "seeded")))
+    ids = args or sorted(x for x in os.listdir(os.path.join(HERE, "seeded")) if not x.startswith("_"))
     tier = opts.get("tier", "quick")
     assert sh("git -C /repo status --porcelain --untracked-files=no").stdout.strip() == "", "/repo is not clean"
     results = {}
